@@ -1,6 +1,7 @@
 """C15 - Base64, hex, percent-encoding, SHA-1 (src/util.cpp, src/Http.cpp, src/SHA1.cpp)"""
 from vf.core import Unit, Cut
 from units.common import *
+from vf import replay
 
 U = 'src/util.cpp'
 NMAX_Q, NMAX_T = 4096, 1000000
@@ -36,7 +37,7 @@ __CPROVER_assigns()
 @@enc@@
 void vf_harness(void) { const byte* d; int n; String r = encodeBase64(d, n); VF_CANARY(); }
 ''',
-    entry='encodeBase64',
+    entry='encodeBase64', replay=replay.from_trace('C15/driver.cpp', ['n'], lambda v: ['b64len', v['n']]),
     variants={'': ['-DNMAX=%d' % NMAX_Q]},
     timeout=600,
     desc='RFC 4648 encoder: length, NUL, every output character, padding; all n <= NMAX',
@@ -138,7 +139,7 @@ __CPROVER_assigns(self->count, self->buffer, g_calls, g_logged)
 @@upd@@
 void vf_harness(void) { SHA1* s; const byte* d; int n; SHA1_update(s, d, n); VF_CANARY(); }
 ''',
-    entry='SHA1_update',
+    entry='SHA1_update', replay=replay.from_trace('C15/driver.cpp', ['len'], lambda v: ['sha1', ((v['len'] + 63) // 64) * 64]),
     variants={'J0': ['-DNMAX=100000', '-DFIX_COUNT=0'], 'J3': ['-DNMAX=100000', '-DFIX_COUNT=24'], 'J63': ['-DNMAX=100000', '-DFIX_COUNT=1016'], 'J56': ['-DNMAX=100000', '-DFIX_COUNT=448']},
     kind='bounded', bound='number of bytes already buffered fixed per variant (0, 3, 56, 63); len <= 100000 and all contents symbolic', timeout=600,
     desc='SHA1::update(data,len) with transform() as a logging stub: exactly floor((buffered+len)/64) blocks are transformed, the k-th is bytes [64k,64k+64) of '
